@@ -290,7 +290,7 @@ func runCheck(cmd, prop, tier, repo, root, only string, keep, verbose, writeExpe
 				o0.NoQAxioms = true
 				o0.NoFAxioms = true
 				q0 := buildQuery(&o0, true, false)
-				if r0 := quickSolve(q0, smtDir, o.Name+"-ground", 3); r0.Result == "unsat" {
+				if r0 := quickSolve(q0, smtDir, o.Name+"-ground", max(8, timeout/3)); r0.Result == "unsat" {
 					r0.Solver += "(ground)"
 					best, allr = r0, []SolverResult{r0}
 					provedQuery = q0
